@@ -531,7 +531,35 @@ fn check_sparql(db: &GrafeoDB, twin: &pin::Twin, m: &BTreeSet<T3>, after: &str, 
             opt.push(vec![cell(&subj(a.0)), cell(&obj(a.2)), cell(&obj(b.2))]);
         }
     }
-    judge("optional", format!("SELECT ?s ?a ?b WHERE {{ ?s {} ?a OPTIONAL {{ ?s {} ?b }} }}", sparql_term(&pred(0)), sparql_term(&pred(1))), opt);
+    judge("optional", format!("SELECT ?s ?a ?b WHERE {{ ?s {} ?a OPTIONAL {{ ?s {} ?b }} }}", sparql_term(&pred(0)), sparql_term(&pred(1))), opt.clone());
+    // OPTIONAL followed by a FILTER on whether its variable got bound
+    judge(
+        "optional-filter-bound",
+        format!("SELECT ?s ?a ?b WHERE {{ ?s {} ?a OPTIONAL {{ ?s {} ?b }} FILTER(bound(?b)) }}", sparql_term(&pred(0)), sparql_term(&pred(1))),
+        opt.iter().filter(|r| r[2] != "UNBOUND").cloned().collect(),
+    );
+    judge(
+        "optional-filter-not-bound",
+        format!("SELECT ?s ?a WHERE {{ ?s {} ?a OPTIONAL {{ ?s {} ?b }} FILTER(!bound(?b)) }}", sparql_term(&pred(0)), sparql_term(&pred(1))),
+        opt.iter().filter(|r| r[2] == "UNBOUND").map(|r| vec![r[0].clone(), r[1].clone()]).collect(),
+    );
+    // UNION whose branches bind different variables
+    {
+        let mut rows: Vec<Vec<String>> = m.iter().filter(|t| t.1 == 0).map(|t| vec![cell(&subj(t.0)), "UNBOUND".to_string()]).collect();
+        rows.extend(m.iter().filter(|t| t.1 == 1).map(|t| vec!["UNBOUND".to_string(), cell(&subj(t.0))]));
+        judge("union-different-variables", format!("SELECT ?a ?b WHERE {{ {{ ?a {} ?x }} UNION {{ ?b {} ?y }} }}", sparql_term(&pred(0)), sparql_term(&pred(1))), rows);
+    }
+    // grouping: triples per subject; number of distinct subjects; distinct (subject, predicate) pairs
+    {
+        let mut per: BTreeMap<u8, usize> = BTreeMap::new();
+        for t in m.iter() {
+            *per.entry(t.0).or_insert(0) += 1;
+        }
+        judge("group-by-count", "SELECT ?s (COUNT(*) AS ?c) WHERE { ?s ?p ?o } GROUP BY ?s".into(), per.iter().map(|(s0, c)| vec![cell(&subj(*s0)), c.to_string()]).collect());
+        judge("count-distinct", "SELECT (COUNT(DISTINCT ?s) AS ?c) WHERE { ?s ?p ?o }".into(), vec![vec![per.len().to_string()]]);
+        let sp: BTreeSet<(u8, u8)> = m.iter().map(|t| (t.0, t.1)).collect();
+        judge("distinct-pairs", "SELECT DISTINCT ?s ?p WHERE { ?s ?p ?o }".into(), sp.iter().map(|(a, b)| vec![cell(&subj(*a)), cell(&pred(*b))]).collect());
+    }
     // FILTER on equality with a plain literal
     judge(
         "filter",
